@@ -9,6 +9,7 @@ import PicoVerif.Spec.Stream
 import PicoVerif.Spec.Formats
 import PicoVerif.Model.Lexer
 import PicoVerif.Model.Writers
+import PicoVerif.Spec.LuaLex
 /-! Line-protocol driver over the executable models (compiled; must not import Mathlib).
 One request per line: `op arg arg ...`; one response line per request.
 Byte strings travel as lower-case hex (`-` = empty). -/
@@ -317,6 +318,15 @@ def handle (st : St) (line : String) : St × String :=
       match Lex.lex l with
       | .ok ts => s!"ok {Wr.tokenCount ts}"
       | .error e => showErr e
+  | ["speclex", h] => (parseHex h).elim "bad-op" fun d =>
+      match Spec.Lex.lexSource d with
+      | some ts => showToks (.ok ts)
+      | none => "none"
+  | ["specraw", h] => (parseHex h).elim "bad-op" fun d =>
+      match Spec.Lex.extents (d.length + 1) d with
+      | some ns => "ok " ++ showNats ns
+      | none => "none"
+  | ["numval", h] => (parseHex h).elim "bad-op" fun d => let r := Spec.Lex.numeralVal d; s!"ok {r.1} {r.2}"
   | ["nameforid", n] => (n.toNat?).elim "bad-op" fun n => "ok " ++ showHex (Wr.nameForId n)
   | "shortnames" :: mode :: keep :: names =>
     match nameCfg mode keep, names.mapM parseHex with
